@@ -2,7 +2,6 @@
 //! (or fails to parse). Blind / structural faults come from the hostile transport; adaptive
 //! man-in-the-middle substitutions use the verifier's own query positions.
 
-use std::sync::OnceLock;
 
 use simcore::iso::{danger_zone, IsoArm};
 use simcore::{Arm, CheckSpec, Chooser, Ctx, RunInfo, Tier};
@@ -78,13 +77,13 @@ pub fn judge(ctx: &mut Ctx, base: &dyn Base, what: &str, d: &Delivered, kind: &s
 
 struct EnumArm {
     kind: EnumKind,
-    index: OnceLock<EnumIndex>,
+    index: simcore::Keyed<(bool, u64), EnumIndex>,
     quick_bases: usize,
 }
 
 impl EnumArm {
     fn idx(&self, tier: Tier, seed: u64) -> &EnumIndex {
-        self.index.get_or_init(|| enum_sizes(self.kind, seed, if tier == Tier::Quick { self.quick_bases } else { usize::MAX }))
+        self.index.get_or_init((tier == Tier::Quick, seed), || enum_sizes(self.kind, seed, if tier == Tier::Quick { self.quick_bases } else { usize::MAX }))
     }
 }
 
@@ -160,9 +159,9 @@ impl Arm for SampledArm {
 pub fn spec() -> CheckSpec {
     let iso = |a: Box<dyn Arm>| -> Box<dyn Arm> { Box::new(IsoArm { check_id: "C03", inner: a, timeout_s: 60, exe_env: None, alias: None }) };
     let arms: Vec<Box<dyn Arm>> = vec![
-        iso(Box::new(EnumArm { kind: EnumKind::Counts, index: OnceLock::new(), quick_bases: usize::MAX })),
-        iso(Box::new(EnumArm { kind: EnumKind::Coordinated, index: OnceLock::new(), quick_bases: usize::MAX })),
-        iso(Box::new(EnumArm { kind: EnumKind::BitFlips, index: OnceLock::new(), quick_bases: 14 })),
+        iso(Box::new(EnumArm { kind: EnumKind::Counts, index: simcore::Keyed::new(), quick_bases: usize::MAX })),
+        iso(Box::new(EnumArm { kind: EnumKind::Coordinated, index: simcore::Keyed::new(), quick_bases: usize::MAX })),
+        iso(Box::new(EnumArm { kind: EnumKind::BitFlips, index: simcore::Keyed::new(), quick_bases: 14 })),
         iso(Box::new(SampledArm)),
         Box::new(crate::c03_adaptive::AdaptiveArm),
     ];
